@@ -154,9 +154,10 @@ func HelperMain() {
 			time.Sleep(time.Duration(n) * time.Millisecond)
 			os.Exit(0)
 		case "block":
-			// block [--ignore-quit] [--exit-on-int] [--ready=FILE] [--pid=FILE] [-o TEXT]
+			// block [--ignore-quit] [--exit-on-int] [--die-after=MS] [--ready=FILE] [--pid=FILE] [-o TEXT]
 			exitOnInt := false
 			ready := ""
+			dieAfter := time.Duration(0) // give up (status 7) after this long: a bound for cases where a signal can get lost
 			for i := 1; i < len(args); i++ {
 				a := args[i]
 				switch {
@@ -164,6 +165,9 @@ func HelperMain() {
 					signal.Ignore(syscall.SIGQUIT)
 				case a == "--exit-on-int":
 					exitOnInt = true
+				case strings.HasPrefix(a, "--die-after="):
+					ms, _ := strconv.Atoi(strings.TrimPrefix(a, "--die-after="))
+					dieAfter = time.Duration(ms) * time.Millisecond
 				case strings.HasPrefix(a, "--ready="):
 					ready = strings.TrimPrefix(a, "--ready=")
 				case strings.HasPrefix(a, "--pid="):
@@ -185,6 +189,12 @@ func HelperMain() {
 				tmp := ready + ".tmp-" + strconv.Itoa(os.Getpid())
 				os.WriteFile(tmp, []byte("ready\n"), 0o666)
 				os.Rename(tmp, ready)
+			}
+			if dieAfter > 0 {
+				go func() {
+					time.Sleep(dieAfter)
+					os.Exit(7)
+				}()
 			}
 			if exitOnInt {
 				<-ch
